@@ -180,5 +180,50 @@ def main():
         print(sid, 'confirmed' if ok else 'NOT-CONFIRMED', 'DETECTED' if detected else 'MISSED', suite, '|', demo_patch, '|', demo_base, '|', {k: v['exit'] for k, v in caught.items()}, flush=True)
 
 
+def recheck(only):
+    """re-run every filed seed (seeded/<id>/patch.diff + demo_test.py + meta.json) against the current /repo HEAD"""
+    head = sh('git -C /repo rev-parse --short HEAD', cwd='/')[1].strip()
+    sh(f'git checkout -q --detach {head} && git checkout -q -- .')
+    for sid in sorted(os.listdir(os.path.join(V, 'seeded'))):
+        d = os.path.join(V, 'seeded', sid)
+        mp = os.path.join(d, 'meta.json')
+        if not os.path.exists(mp) or (only and sid not in only):
+            continue
+        meta = json.load(open(mp))
+        if not only and meta.get('confirmed_on_repo_commit') == head:
+            continue
+        patch, demo = os.path.join(d, 'patch.diff'), os.path.join(d, 'demo_test.py')
+        sh('git checkout -q -- .')
+        demo_base = sh(f'PYTHONPATH={W}/src /venv/bin/python -m pytest -q -p no:cacheprovider {demo}')[1].strip().split('\n')[-1]
+        rc_apply, out = sh(f'patch -p1 -F3 -s --no-backup-if-mismatch -r /dev/null < {patch}')
+        if rc_apply != 0:
+            print(sid, 'PATCH DOES NOT APPLY on', head, flush=True)
+            sh('git checkout -q -- .')
+            continue
+        diff = sh('git diff')[1]
+        suite = sh(f'PYTHONPATH={W}/src /venv/bin/python -m pytest -q -p no:cacheprovider --ignore=tests/rmq')[1].strip().split('\n')[-1]
+        demo_patch = sh(f'PYTHONPATH={W}/src /venv/bin/python -m pytest -q -p no:cacheprovider {demo}')[1].strip().split('\n')[-1]
+        caught = {}
+        for c in meta['checks']:
+            rc, out = sh(f'./check {c} --tier quick --no-evidence', cwd=V, env={'PLUMPY_SRC': f'{W}/src'})
+            kinds = sorted({l.split('kind=')[1].split(' ')[0] for l in out.split('\n') if l.startswith('  violation kind=')})
+            caught[c] = dict(exit=rc, violation_kinds=kinds[:6])
+            if rc == 1 and not only:
+                break   # one catching check is enough for the regression run; the others keep their recorded result
+        sh('git checkout -q -- .')
+        ok = ('passed' in suite and 'failed' not in suite) and 'failed' in demo_patch and ('passed' in demo_base and 'failed' not in demo_base)
+        for c, v in meta['checks'].items():
+            caught.setdefault(c, dict(v, note='not re-run in the regression pass'))
+        detected = any(v['exit'] == 1 for v in caught.values())
+        meta.update(confirmed_on_repo_commit=head, confirmed=ok, checks=caught, detected=detected)
+        meta['what_i_ran'].update(suite_with_change=suite, demo_with_change=demo_patch, demo_without_change=demo_base)
+        open(patch, 'w').write(diff)
+        json.dump(meta, open(mp, 'w'), indent=1)
+        print(sid, 'confirmed' if ok else 'NOT-CONFIRMED', 'DETECTED' if detected else 'MISSED', suite, '|', demo_patch, '|', demo_base, '|', {k: v['exit'] for k, v in caught.items()}, flush=True)
+
+
 if __name__ == '__main__':
-    main()
+    if len(sys.argv) > 1 and sys.argv[1] == '--recheck':
+        recheck(set(sys.argv[2:]))
+    else:
+        main()
